@@ -178,6 +178,20 @@ def _mutate(o):
     if isinstance(o, MapSet):
         for m in o.maps:
             _mutate(m)
+    if isinstance(o, (Map, MapSet)):
+        # set-level / chart-level metadata held in mutable containers (O2Jam levels, counts; BMS header dicts ...)
+        for k, v in list(vars(o).items()):
+            if k in ("objs", "maps"):
+                continue
+            try:
+                if isinstance(v, list):
+                    if v and isinstance(v[0], (int, float)):
+                        v[0] = v[0] + 41
+                    v.append(0)
+                elif isinstance(v, dict):
+                    v["__probe__"] = 1
+            except Exception:
+                pass
     if isinstance(o, TimedList) and "offset" in o.df.columns:
         o.offset = o.offset + 1
     if isinstance(o, (list, tuple)):
